@@ -16,7 +16,7 @@ TraceInit ==
   /\ err = FALSE /\ fail = <<0, 0>> /\ calls = <<0, 0>> /\ after = <<0, 0>>
 
 Verdict(s) == IF s = "Again" THEN "again" ELSE IF s = "EOF" THEN "eof"
-              ELSE IF s = "WaitForStream" THEN "wait" ELSE s
+              ELSE IF s = "WaitForStream" THEN "wait" ELSE IF s = "Pending" THEN "pending" ELSE s
 
 Same == UNCHANGED vars
 
